@@ -3,8 +3,9 @@
 each stored seeded mutation on a scratch worktree of /repo (never /repo itself) and record
 which checks catch which change in seeded/RESULTS.json.
 
-usage: tools/run_seeded.py [--tier quick] [--only C05-m1,...] [--props C05,C13] [--jobs 3]
-Every seed is run against the check of the property it breaks (and of --also properties)."""
+usage: tools/run_seeded.py [--tier quick] [--only C05-m1,...] [--props C05,C13] [--jobs 3] [--as C06]
+Every seed is run against the check of the property it breaks, or (--as) against the check of another property
+(recorded as <seed>@<that property>)."""
 import json, os, subprocess, sys, tempfile, time, shutil
 from concurrent.futures import ThreadPoolExecutor
 ROOT = os.path.dirname(os.path.dirname(os.path.abspath(__file__)))
@@ -49,6 +50,7 @@ def main():
     only = a[a.index('--only') + 1].split(',') if '--only' in a else None
     props = a[a.index('--props') + 1].split(',') if '--props' in a else None
     jobs = int(a[a.index('--jobs') + 1]) if '--jobs' in a else 3
+    as_prop = a[a.index('--as') + 1] if '--as' in a else None
     claimed = {c['property_id'] for c in json.load(open(ROOT + '/MANIFEST.json'))['checks']}
     seeds = sorted(d for d in os.listdir(ROOT + '/seeded') if os.path.isdir(ROOT + '/seeded/' + d) and not d.startswith('_'))
     work = []
@@ -58,7 +60,9 @@ def main():
         p = s.split('-')[0]
         if props and p not in props:
             continue
-        if p in claimed:
+        if as_prop:
+            work.append((s, as_prop))
+        elif p in claimed:
             work.append((s, p))
     resf = ROOT + '/seeded/RESULTS.json'
     results = json.load(open(resf)) if os.path.exists(resf) else {}
